@@ -33,13 +33,12 @@ mod real {
 
     // ---- harness-side accessors; same module => private fields reachable -------------------
 
-    /// Everything that makes up a `Backoff`, cloneable.
+    /// What the exploration observes of a `Backoff` (the fields the property speaks about).
     #[derive(Clone, Debug)]
     pub struct Snap {
         pub value: Duration,
         pub last_reset_at: Instant,
         pub reset_after: Duration,
-        pub rng: ChaCha20Rng,
     }
 
     pub fn config(
@@ -69,18 +68,14 @@ mod real {
             value: b.value,
             last_reset_at: b.last_reset_at,
             reset_after: b.reset_after,
-            rng: b.rng.clone(),
         }
     }
 
-    pub fn restore(s: &Snap, config: &Config) -> Backoff {
-        Backoff {
-            value: s.value,
-            last_reset_at: s.last_reset_at,
-            reset_after: s.reset_after,
-            config: config.clone(),
-            rng: s.rng.clone(),
-        }
+    /// Hand the live object the configuration whose one-value ranges decide the next draws.  Only
+    /// the `config` field is assigned: whatever other state the struct keeps stays as the real
+    /// code left it.
+    pub fn set_config(b: &mut Backoff, config: &Config) {
+        b.config = config.clone();
     }
 
     /// Time since the last reset under the current mock clock reading.
@@ -151,39 +146,60 @@ struct St {
     now: Duration,
     /// Cached: time since the last reset (canonical key component).
     elapsed: Duration,
+    /// The interval drawn by `Backoff::new` and the actions that led here: a state *is* the history
+    /// reaching it.  The struct is not `Clone`, and rebuilding it field by field would tie the
+    /// harness to its private layout (and silently drop any state a later version adds), so every
+    /// transition replays the history on a fresh `Backoff::new`.
+    first_r: u64,
+    path: Vec<Act>,
+}
+
+/// One action on the live object; returns the new clock reading.
+fn step(b: Base, bo: &mut Backoff, now: Duration, a: Act) -> Duration {
+    match a {
+        Act::Increment { k, r } => {
+            real::set_config(bo, &real_config(b, k, r));
+            bo.increment();
+            now
+        }
+        Act::Reset { r } => {
+            real::set_config(bo, &real_config(b, 1, r));
+            bo.reset();
+            now
+        }
+        Act::Advance(d) => {
+            MockClock::set_time(now + secs(d));
+            now + secs(d)
+        }
+    }
+}
+
+/// A fresh real `Backoff` driven through `path`.
+fn materialize(b: Base, first_r: u64, path: &[Act]) -> (Backoff, Duration) {
+    let mut now = secs(1000);
+    MockClock::set_time(now);
+    let mut bo = Backoff::new(real_config(b, 1, first_r), ChaCha20Rng::from_seed([7; 32]));
+    for a in path {
+        now = step(b, &mut bo, now, *a);
+    }
+    (bo, now)
 }
 
 fn apply(b: Base, s: &St, a: Act) -> St {
-    MockClock::set_time(s.now);
-    let mut now = s.now;
-    let snap = match a {
-        Act::Increment { k, r } => {
-            let mut bo: Backoff = real::restore(&s.snap, &real_config(b, k, r));
-            bo.increment();
-            real::snapshot(&bo)
-        }
-        Act::Reset { r } => {
-            let mut bo: Backoff = real::restore(&s.snap, &real_config(b, 1, r));
-            bo.reset();
-            real::snapshot(&bo)
-        }
-        Act::Advance(d) => {
-            now += secs(d);
-            MockClock::set_time(now);
-            s.snap.clone()
-        }
-    };
-    let elapsed = real::elapsed(&snap);
-    St { snap, now, elapsed }
-}
-
-fn initial_state(b: Base, k: u64, r: u64) -> St {
-    let now = secs(1000);
-    MockClock::set_time(now);
-    let bo = Backoff::new(real_config(b, k, r), ChaCha20Rng::from_seed([7; 32]));
+    let (mut bo, now) = materialize(b, s.first_r, &s.path);
+    let now = step(b, &mut bo, now, a);
     let snap = real::snapshot(&bo);
     let elapsed = real::elapsed(&snap);
-    St { snap, now, elapsed }
+    let mut path = s.path.clone();
+    path.push(a);
+    St { snap, now, elapsed, first_r: s.first_r, path }
+}
+
+fn initial_state(b: Base, _k: u64, r: u64) -> St {
+    let (bo, now) = materialize(b, r, &[]);
+    let snap = real::snapshot(&bo);
+    let elapsed = real::elapsed(&snap);
+    St { snap, now, elapsed, first_r: r, path: vec![] }
 }
 
 fn fmt_path(p: &[Act]) -> String {
@@ -298,7 +314,7 @@ fn explore(rep: &mut Report, part: &'static str, b: Base, first_rs: &[u64], acts
             }
         }
     }
-    // every transition is one call of the real increment()/reset() on a rebuilt Backoff
+    // every transition is one call of the real increment()/reset() on a Backoff replayed from new()
     rep.evals(transitions);
     rep.transitions += transitions;
     for s in states {
@@ -455,7 +471,7 @@ pub fn run(mut rep: Report) -> i32 {
     }
     sampling(&mut rep);
     rep.assume("the real backoff.rs is compiled with std::time::Instant bound to mock_instant::thread_local::Instant (what the file's own cfg(test) arm selects); the harness sets every clock reading");
-    rep.assume("the ChaCha stream is never the deciding dimension: every range handed to random_range has exactly one value (width 1 ms), chosen by the harness per action; the Backoff struct is rebuilt from its fields with that configuration before every call; default-config runs under concrete seeds are reported separately as sampling and decide nothing");
+    rep.assume("the ChaCha stream is never the deciding dimension: every range handed to random_range has exactly one value (width 1 ms), chosen by the harness per action by assigning the live object's config field before the call; a state is reached by replaying its action history on a fresh Backoff::new (no field-by-field reconstruction); default-config runs under concrete seeds are reported separately as sampling and decide nothing");
     rep.assume("'returns to the initial value once the reset interval has elapsed' is read as the code documents it: the reset is applied by the first increment() called after the interval");
     rep.finish()
 }
